@@ -252,6 +252,9 @@ def dataset_ids(m):
         K = sum(1 for _ in R.compositions(N, m))
         ids += ["tab:%d:%d" % (N, t) for t in range(K)]
     ids += ["exact:100", "exact:100000", "counts:100", "counts:100000"]
+    # UNEQUAL shot counts over the schedules (1e5 / 1e2 alternating, both phases): per-schedule quantities of the
+    # inverse-covariance weights must use their own schedule's count
+    ids += ["exactmix:0", "exactmix:1", "countsmix:0", "countsmix:1"]
     return ids
 
 
@@ -273,6 +276,12 @@ def dataset(su, did):
         cs = comps(N, su.m)
         K = len(cs)
         return [(N, np.array(cs[(t + s * (1 + K // 4)) % K], dtype=np.float64) / N) for s in range(su.S)]
+    if parts[0] in ("exactmix", "countsmix"):
+        ph = int(parts[1])
+        ns = [100000 if (s + ph) % 2 == 0 else 100 for s in range(su.S)]
+        if parts[0] == "exactmix":
+            return [(ns[s], np.array(su.p_true[s], dtype=np.float64)) for s in range(su.S)]
+        return [(ns[s], round_counts(su.p_true[s], ns[s]).astype(np.float64) / ns[s]) for s in range(su.S)]
     n = int(parts[1])
     if parts[0] == "exact":
         return [(n, np.array(su.p_true[s], dtype=np.float64)) for s in range(su.S)]
